@@ -234,6 +234,18 @@ def c17_hook(G, rng):
             body = ["Labelled", l, 1, ["Then", t(), body]]
         return body if rng.random() < 0.6 else ["Or", body, G.g(1)]
     return G.g(rng.randint(1, 4))
+def c18_hook(G, rng):
+    """now and then: two routes to the same position that leave different inspector states behind - a lookahead / an alternative /
+    an optional under with_state next to one on the outer state - followed by a state observer"""
+    if rng.random() < 0.12:
+        n = rng.randint(1, 2)
+        x = lambda: rng.choice(["Any", ["OneOf", [A, B]], ["NoneOf", [C]]]) if n == 1 else rng.choice([["Then", "Any", "Any"], ["Just", [A, B]], ["Then", ["OneOf", [A, B]], "Any"]])
+        ws = lambda g: ["WithState", rng.randint(1, 9), g]
+        two = rng.choice([lambda: ["AndIs", x(), ws(x())], lambda: ["AndIs", ws(x()), x()], lambda: ["Or", ["Then", ws(x()), ["Just", [C]]], x()],
+                          lambda: ["Then", ["Rewind", ws(x())], x()], lambda: ["Then", ["OrNot", ["Then", x(), ["Just", [C]]]], ws(x())]])()
+        obs = rng.choice([["MapWith", "MWState", "Any"], ["MapWith", "MWAll", ["OrNot", "Any"]], ["Prog", ["CState", "CNext", "CState"], 3], ["MapWith", "MWState", "Empty"]])
+        return ["Then", two, obs] if rng.random() < 0.7 else ["Then", ["MapWith", "MWState", two], obs]
+    return G.g(rng.randint(1, 4))
 def c04_hook(G, rng):
     c = rng.random()
     if c < 0.12: return ["Then", G.pratt(), G.g(1)] if rng.random() < 0.5 else ["IgnoreThen", G.g(1), G.pratt()]
@@ -425,6 +437,7 @@ SPECS = {
                 nontrivial=lambda g, inp: has_head(g, set(DECOR)),
                 rule="C01/C02 grammars with labelled / as_context / map_err at random nodes, Rich errors; non-trivial = a decoration present"),
     "C18": Spec("C18", CORE + ITER + RECOVER + ["MapWith"] * 6 + ["FoldlWith", "FoldrWith"] + ["Skip"] * 2 + ["WithState"] * 3 + ["Padded"] * 4 + ["AnyRef", "SelectRef"] * 2 + ["Prog"] * 3, obs_vv, ekinds=("rich",), ikinds=("str", "slice"),
+                gen_hook=lambda G, rng: c18_hook(G, rng),
                 nontrivial=lambda g, inp: len(inp) > 0 and has_head(g, {"MapWith", "FoldlWith", "FoldrWith", "IMapWith"}),
                 rule="C01/C02/C08 grammars with state-observing map_with / foldl_with / foldr_with at random nodes (the inspector "
                      "hashes every token and snapshots on save), tokens also consumed through InputRef::skip in custom parsers, with_state(seed) at random nodes "
@@ -440,9 +453,20 @@ SPECS = {
                      "recursive / declare-define / mutual recursion, flat repetitions of 3*10^5 tokens (a crash or hang of the worker counts as a violation)"),
 }
 
-SPECS["C19"] = Spec("C19", CORE + ["Map"] * 6 + ITER + ["CollectExactly"] * 3 + ["GroupArr"] * 5 + ["Group"] * 2 + RECOVER + EMIT, obs_full, sem_obs=obs_vv_emis_last,
+def c19_short(G, rng):
+    """a fixed-size collection that stops short after items were written although nothing was consumed since make_iter: the items
+    come out of an into_iter() (its parser ran in make_iter), the iterable chained after it yields too few"""
+    tr = lambda g: ["Map", "FNew", g]
+    head = ["Collect", "CVec", ["IRep", tr(rng.choice(["Any", ["Just", [A]], ["OneOf", [A, B]]])), rng.randint(1, 2), rng.randint(2, 3)]]
+    tail = rng.choice([["IRep", tr(["Just", [B]]), 0, "inf"], ["IOrNot", tr(["Just", [C]])], ["IRep", tr(["OneOf", [B, C]]), 0, 2]])
+    ce = ["CollectExactly", rng.randint(2, 4), ["IThen", ["IIntoIter", head], tail]]
+    c = rng.random()
+    if c < 0.4: return ce
+    if c < 0.7: return ["Or", ce, ["Collect", "CCount", ["IRep", "Any", 0, "inf"]]]
+    return ["Then", ["OrNot", ce], ["Collect", "CCount", ["IRep", "Any", 0, "inf"]]]
+SPECS["C19"] = Spec("C19", CORE + ["Map"] * 6 + ITER + ["CollectExactly"] * 3 + ["GroupArr"] * 5 + ["Group"] * 2 + RECOVER + EMIT + ["IntoIter"] * 2, obs_full, sem_obs=obs_vv_emis_last,
                     ekinds=("rich",), ikinds=("str", "slice", "stream"), extra=drop_oracle, n_quick=700, n_thorough=8000,
-                    gen_hook=lambda G, rng: (setattr(G, "track", True), ["Then", ["Map", "FNew", "Any"], G.g(rng.randint(1, 3))] if rng.random() < 0.15 else G.g(rng.randint(2, 4)))[1],
+                    gen_hook=lambda G, rng: (setattr(G, "track", True), c19_short(G, rng) if rng.random() < 0.12 else ["Then", ["Map", "FNew", "Any"], G.g(rng.randint(1, 3))] if rng.random() < 0.15 else G.g(rng.randint(2, 4)))[1],
                     nontrivial=lambda g, inp: len(inp) > 0 and "FNew" in str(g) and has_head(g, {"GroupArr", "CollectExactly", "Group", "Foldl", "Foldr", "RecoverVia", "Or", "Collect"}),
                     rule="C01/C02/C08 grammars extended with group([..;N]) (N = 1..4), group((..)), collect_exactly::<[T;N]>, folds and recovery, whose map "
                          "closures create drop-tracked values (unique id, registered on creation and on Clone, unregistered on Drop; dropping an unregistered id "
